@@ -34,6 +34,15 @@ func main() {
 			os.Exit(2)
 		}
 		os.Stdout.Write(bs)
+	case "footprint":
+		// govc footprint <repo> <function-key-substring>...: inferred write and allocation sets (debugging aid)
+		g, err := vc.Load(os.Args[2])
+		if err != nil {
+			fmt.Println(err)
+			os.Exit(2)
+		}
+		g.ComputeWriteSets()
+		g.DumpFootprints(os.Args[3:])
 	case "globals":
 		g, err := vc.Load("/repo")
 		if err != nil {
